@@ -61,6 +61,9 @@ def gen_cases(tier):
     for v in T.MICRO + (1, 2, 3, 9, 10):
         for lvl in T.levels_of(v):
             yield ('merge', v, lvl)
+    # (h) bit-exact capacity of every (version, level): multi-part contents needing exactly capacity and capacity + 1 bits
+    for v in T.ORDER:
+        yield ('bitexact', v)
     # (g) cross-talk: one process, one fixed order and its reverse (exposes state shared between calls, e.g. incompletely keyed caches)
     yield ('crosstalk', 0)
     yield ('crosstalk', 1)
@@ -300,6 +303,12 @@ def run_case(case, acc, want='both'):
         merge_one(case[1], case[2], case[3], case[4], case[5], acc, want)
     elif kind == 'crosstalk':
         crosstalk(case[1], acc, want)
+    elif kind == 'bitexact':
+        for lvl in T.levels_of(case[1]):
+            for over in (0, 1):
+                bitexact(case[1], lvl, over, acc, want)
+    elif kind == 'bitexact1':
+        bitexact(case[1], case[2], case[3], acc, want)
     elif kind == 'oneenc':
         _, n, kw = case
         nonlatin = kw.get('encoding') != 'iso-8859-1'
@@ -384,6 +393,57 @@ def merge_one(v, lvl, mode, k1, k2, acc, want):
             acc.violation('version/too-small', 'version %r returned, even one merged segment needs %r' % (qr.version, lo[1]), case)
         if req is None and hi[0] == 'ok' and T.ORDER.index(qr.version) > T.ORDER.index(hi[1]):
             acc.violation('version/not-smallest', 'version %r returned, two separate segments already fit %r' % (qr.version, hi[1]), case)
+
+
+def solve_bits(v, target):
+    """(digits, letters, bytes) of a numeric + alphanumeric + byte content that needs exactly `target` bits in version v"""
+    modes = [m for m in ('numeric', 'alphanumeric', 'byte') if T.mode_supported(m, v)]
+    head = {m: T.mode_ind_bits(v) + T.cci_bits(m, v) for m in modes}
+    lim = {m: (1 << T.cci_bits(m, v)) - 1 for m in modes}
+    for d in range(1, min(lim['numeric'], 12) + 1):
+        rest = target - head['numeric'] - T.payload_bits('numeric', d)
+        if rest == 0:
+            return (d, 0, 0)
+        if 'alphanumeric' not in modes:
+            continue
+        for a in range(1, min(lim['alphanumeric'], 8) + 1):
+            r2 = rest - head['alphanumeric'] - T.payload_bits('alphanumeric', a)
+            if r2 == 0:
+                return (d, a, 0)
+            if 'byte' in modes and r2 > head['byte'] and (r2 - head['byte']) % 8 == 0 and 1 <= (r2 - head['byte']) // 8 <= lim['byte']:
+                return (d, a, (r2 - head['byte']) // 8)
+    # long single-mode fillers for the versions without byte mode
+    for m in modes:
+        for n in range(1, lim[m] + 1):
+            if head[m] + T.payload_bits(m, n) == target:
+                return (n, 0, 0) if m == 'numeric' else None
+    return None
+
+
+def bitexact(v, lvl, over, acc, want):
+    """a three-part content (digits, letters, bytes) that needs exactly capacity (+1) bits of the cell (v, lvl): the cell's capacity
+    is decided to the bit, with the version requested and automatic, with and without error-level boosting"""
+    cap = T.data_bits(v, lvl)
+    sol = solve_bits(v, cap + over)
+    if sol is None:
+        acc.count('bitexact_unreachable')
+        return
+    d, a, b = sol
+    content = [x for x in ('7' * d, 'K' * a, 'z' * b) if x]
+    parts = [(m, n, False) for m, n in (('numeric', d), ('alphanumeric', a), ('byte', b)) if n]
+    assert Sel.required_bits(parts, v) == cap + over, (v, lvl, sol)
+    acc.add('bitexact_cells', (v, lvl, over))
+    exp = ''.join(content).encode()
+    case = ('bitexact1', v, lvl, over)
+    lowest = T.levels_of(v)[0]
+    for kw in ({'version': v, 'error': lvl, 'boost_error': False}, {'error': lvl, 'boost_error': False}, {'version': v, 'error': lowest},
+               {'error': lvl, 'boost_error': False, 'micro': False}):
+        kw = dict(kw, mask=0)
+        if kw.get('error') is None:
+            del kw['error']
+        if kw.get('micro') is False and not T.is_micro(v):
+            continue
+        evaluate(acc, case, content, parts, kw, single=True, decode=(T.is_micro(v) or v <= 12), exp_bytes=exp, want=want)
 
 
 def crosstalk(direction, acc, want):
